@@ -74,7 +74,11 @@ def bytes_len(it, b):
     if k in ('canon', 'enc'):
         ln = getattr(b, 'len_var', None)
         if ln is None:
-            ln = b.len_var = it.eng.fresh('blen', z3.IntSort())
+            if k == 'canon':
+                # the length is a function of the bytes: equal canonical serialisations have equal lengths
+                ln = b.len_var = it.eng.uf('CanonLen', [b], lambda x, y: bytes_eq(it, x, y), sort=z3.IntSort())
+            else:
+                ln = b.len_var = it.eng.fresh('blen', z3.IntSort())
             it.eng.add(ln >= (2 if k == 'canon' else 0))
         return ln
     raise Unsupported('len of bytes kind ' + k)
@@ -1444,6 +1448,12 @@ def sp_hexlify(it, fr, x):
 
 def sp_pack(it, fr, fmt, *vals):
     vals = [fr.split(v) for v in vals]
+    if isinstance(fmt, str) and fmt.lstrip('><!=@') in ('B', 'H', 'L', 'Q') and len(vals) == 1 and isinstance(vals[0], (SInt, SBool)):
+        n = as_num(vals[0])
+        size = struct.calcsize(fmt)
+        if not it.eng.fork(z3.And(n[1] >= 0, n[1] < 2 ** (8 * size))):
+            raise PyExc(struct.error('argument out of range'))
+        return SBytes('packed', fmt=fmt, e=n[1])
     if isinstance(fmt, str) and fmt in ('>I', '<I', '!I', '=I', 'I') and len(vals) == 1 and isinstance(vals[0], (SInt, SBool)):
         n = as_num(vals[0])
         if not it.eng.fork(z3.And(n[1] >= 0, n[1] < 2 ** 32)):
